@@ -1,5 +1,5 @@
 SPECIFICATION Spec
 CONSTANTS
   Dev = {}
-INVARIANTS RoundTrip StepsAreOutcome OneContent TagIsolation
+INVARIANTS RoundTrip StepsAreOutcome OneContent TagIsolation RecordsIndependent
 CHECK_DEADLOCK FALSE
